@@ -272,7 +272,10 @@ def unicode_case(rng):
 
 
 TAILS = ["// Autor: René", "(* geprüft: Jörg Müß *)", "// 日本", "(* € *)", "é", "// xé", "(* unterminated é", "'é",
-         "// ok", "(* ascii *)", "// €", "éé", "// 🙂", "(* 🙂 *)", "//é", "// é\r"]
+         "// ok", "(* ascii *)", "// €", "éé", "// 🙂", "(* 🙂 *)", "//é", "// é\r",
+         # what old tools leave at the end of a file (DOS end-of-file mark), and characters whose UTF-16 form ends in
+         # the same byte
+         "\x1a", "// fin \u201a", "(* \u011a", "// x\x1a", "\u201a"]
 
 
 def tail(rng, wide=True):
